@@ -40,6 +40,8 @@ type vrScenario struct {
 	existingPrio   int32         // != 0: the intent already exists in the intended store with this priority
 	newPrio        int32         // priority of the intent in the transaction (default 10)
 	sbiFailsFrom   int           // > 0: the target rejects its n-th and every later Set (1-based)
+	intents        int           // > 1: that many intents (owner1..ownerN, same content) in the transaction
+	modifyFailNth  int           // > 0: the n-th write of the intended store fails (1-based), the others succeed
 }
 
 var vrTraceMu sync.Mutex
@@ -81,10 +83,15 @@ func vrRunLive(t *testing.T, sc vrScenario) (tracep *[]string, rsp *sdcpb.Transa
 	defer cancel()
 	controller := gomock.NewController(t)
 	cacheClient := mockcacheclient.NewMockClient(controller)
+	intendedWrites := 0
 	cacheClient.EXPECT().Modify(gomock.Any(), gomock.Any(), gomock.Any(), gomock.Any(), gomock.Any()).AnyTimes().DoAndReturn(
 		func(_ context.Context, _ string, opts *cache.Opts, dels [][]string, upds []*cache.Update) error {
 			store := strings.ToLower(opts.Store.String())
 			fails := sc.modifyFail == store
+			if store == "intended" {
+				intendedWrites++
+				fails = fails || intendedWrites == sc.modifyFailNth
+			}
 			vrTraceMu.Lock()
 			defer vrTraceMu.Unlock()
 			trace = append(trace, fmt.Sprintf("Modify(%s,%s,%d,ok=%v)", store, opts.Owner, opts.Priority, !fails))
@@ -151,7 +158,11 @@ func vrRunLive(t *testing.T, sc vrScenario) (tracep *[]string, rsp *sdcpb.Transa
 		}
 		replace = mk("replace", 10, rc)
 	}
-	rsp, err = d.TransactionSet(ctx, "trans1", []*types.TransactionIntent{mk("owner1", prio, sc.content)}, replace, timeout, sc.dryRun)
+	tis := []*types.TransactionIntent{mk("owner1", prio, sc.content)}
+	for i := 2; i <= sc.intents; i++ {
+		tis = append(tis, mk(fmt.Sprintf("owner%d", i), prio+int32(i), sc.content))
+	}
+	rsp, err = d.TransactionSet(ctx, "trans1", tis, replace, timeout, sc.dryRun)
 	return
 }
 
@@ -347,6 +358,18 @@ func TestVerifReplayTransactionSet(t *testing.T) {
 			if err == nil {
 				d.transactionManager.Confirm("trans1")
 			}
+		}
+	}
+	// C07: three intents in one transaction, one write of the intended store fails: the failure is reported, whichever it is
+	for nth := 1; nth <= 3; nth++ {
+		n++
+		sc := vrScenario{content: "valid", intents: 3, modifyFailNth: nth}
+		trace, _, err, d := vrRun(t, sc)
+		if err == nil {
+			for _, fn := range []string{fnTS, fnLL} {
+				fmt.Printf("REPLAY-FAIL fn=%s clause=success_means_every_write_succeeded input=%s,intents=3,failingIntendedWrite=%d err=<nil> effects=%v why=a write of the intended store failed, yet the transaction reports success\n", fn, sc, nth, trace)
+			}
+			d.transactionManager.Confirm("trans1")
 		}
 	}
 	// C03: a dry run, or a rejected run, of a re-prioritised intent leaves the stores as they were
